@@ -11,6 +11,7 @@ R5.5 title and box forwarded before the first write (the header is emitted by th
 R5.6 residue numbers (C04/R4.5) and frames for small references (C02/R2.3)
 R5.5 also: box line written completely (C13/R13.4); title stored, written and read unchanged (C13/R13.6)
 R11.1/R11.3 (shared with C11): the system that is iterated lists every instance, in file order
+R5.8 no table kept between calls by extrapolate_system / complete_correspondence unless keyed by everything its entries are computed from
 """
 from __future__ import annotations
 
